@@ -115,18 +115,24 @@ def ctrans_case(M, N, cfg, kind, base=DBL):
                 ens.append((b, 2 * (j * M + i), re(a, i, j, N))); ens.append((b, 2 * (j * M + i) + 1, -im(a, i, j, N)))
     else:
         # X += ctrans(A)  /  B = X + ctrans(A): element (j,i) gets x + conj(a(i,j)); either fadd(x,-a) or fsub(x,a) is the same IEEE value
-        x = Buf('x', base, 2 * n, 'inout' if kind == 'ctrans-addassign' else 'in'); mode = 'UF'
-        if kind == 'ctrans-addassign':
-            body = '    %s %s\n    X += ctrans(A);\n    %s' % (ld('A', (M, N), 'a'), ld('X', (N, M), 'x'), out('X', 'x')); o = x; bufs = [a, x]
+        # X -= ctrans(A)  /  B = X - ctrans(A): element (j,i) gets x - conj(a(i,j)) = (x.re - a.re, x.im + a.im)
+        inplace = kind in ('ctrans-addassign', 'ctrans-subassign'); minus = kind in ('ctrans-subassign', 'ctrans-sub')
+        x = Buf('x', base, 2 * n, 'inout' if inplace else 'in'); mode = 'UF'
+        if inplace:
+            body = '    %s %s\n    X %s= ctrans(A);\n    %s' % (ld('A', (M, N), 'a'), ld('X', (N, M), 'x'), '-' if minus else '+', out('X', 'x')); o = x; bufs = [a, x]
         else:
             o = Buf('b', base, 2 * n, 'out'); bufs = [a, x, o]
-            body = '    %s %s\n    Tensor<%s,%d,%d> B = X + ctrans(A);\n    %s' % (ld('A', (M, N), 'a'), ld('X', (N, M), 'x'), C, N, M, out('B', 'b'))
+            body = '    %s %s\n    Tensor<%s,%d,%d> B = X %s ctrans(A);\n    %s' % (ld('A', (M, N), 'a'), ld('X', (N, M), 'x'), C, N, M, '-' if minus else '+', out('B', 'b'))
         for i in range(M):
             for j in range(N):
                 k = 2 * (j * M + i)
-                ens.append((o, k, E.inp(x, k) + re(a, i, j, N)))
                 xi = E.inp(x, k + 1); ai = im(a, i, j, N)
-                ens.append(('bool', '%s[%d] == x.im + (-a.im)' % (o.name, k + 1), E.post(o, k + 1).same(xi + (-ai)).bor(E.post(o, k + 1).same(xi - ai))))
+                if not minus:
+                    ens.append((o, k, E.inp(x, k) + re(a, i, j, N)))
+                    ens.append(('bool', '%s[%d] == x.im + (-a.im)' % (o.name, k + 1), E.post(o, k + 1).same(xi + (-ai)).bor(E.post(o, k + 1).same(xi - ai))))
+                else:
+                    ens.append((o, k, E.inp(x, k) - re(a, i, j, N)))
+                    ens.append(('bool', '%s[%d] == x.im - (-a.im)' % (o.name, k + 1), E.post(o, k + 1).same(xi - (-ai)).bor(E.post(o, k + 1).same(xi + ai))))
     ens.sort(key=lambda t: t[1] if t[0] != 'bool' else 10 ** 6)
     c = Case('C14/%s/c%s/%dx%d/%s' % (kind, base.name, M, N, cfg.tag()), 'C14', body, bufs, ens, mode, cfg)
     if mode == 'UF': c.solver = 'cadical'    # MiniSat was seen to hang on small UF instances
@@ -188,6 +194,8 @@ def cases(tier, seed):
                 out.append(ctrans_case(M, N, Cfg(isa), 'ctrans-assign', base))
                 out.append(ctrans_case(M, N, Cfg(isa, pipe='P0'), 'ctrans-addassign', base))
                 out.append(ctrans_case(M, N, Cfg(isa, pipe='P0'), 'ctrans-add', base))
+                out.append(ctrans_case(M, N, Cfg(isa, pipe='P0'), 'ctrans-subassign', base))
+                out.append(ctrans_case(M, N, Cfg(isa, pipe='P0'), 'ctrans-sub', base))
         # permute: both language standards see different index maps
         for std in ('c++14', 'c++17'):
             cfg = Cfg(isa, std)
